@@ -98,5 +98,21 @@ CLAIMED['C09'] = dict(
     technique="TLA+ model of sort+groupby scan checked by TLC against a partition definition; spec->code case replay "
               "over all aggregation-spec forms; code->spec trace validation by TLC",
     design="3/C09")
+CLAIMED['C11'] = dict(
+    text="TLC checks Strategy.tla: (a) every key-sorted sequence up to the bound is a fixpoint of the stable sort (so "
+         "presorted=True on sorted input skips nothing) and, via ExtSort.tla, the sort result is independent of "
+         "buffersize/cache/pass; (b) the cache clause as a state machine over an editable, versioned source - all "
+         "histories of edit / full pass / partial pass up to 6 steps: cache=False passes show the current version and read "
+         "the source, cache=True passes after a completed one replay it without reading. Spec->code: every maximal "
+         "behaviour (5 steps) is replayed on the real sort() (memory and file path) and 10 sort-backed views over "
+         "version-stamped, pull-counting probes; every sort-backed operator form (38) runs on TLC-generated inputs under "
+         "strategy variants (buffersize 1..n+1, petl.config.sort_buffersize, tempdir, cache, presorted on pre-sorted "
+         "inputs, second pass) and must equal the default call. Code->spec: random sort() histories are validated by "
+         "StrategyTrace, which drives Strategy's own actions with the logged events.",
+    note="The default call is itself checked against the specs by C05-C10; the effect of a partial pass on the cache is "
+         "model-level (DRIFT), only completed passes are constrained at property level.",
+    technique="TLA+ cache/edit state machine + sort fixpoint lemma checked by TLC; spec behaviours replayed on real views "
+              "over instrumented sources; strategy differential on TLC-generated inputs; trace validation by TLC",
+    design="3/C11")
 
 NOT_APPLICABLE = {}
